@@ -311,6 +311,10 @@ pub trait InnerTy:
     fn is_finite_(&self) -> bool {
         true
     }
+    /// exact widening to f64 (floats only)
+    fn to_f64_(&self) -> Option<f64> {
+        None
+    }
     // string family
     fn as_str_(&self) -> &str {
         unreachable!("as_str_ on non-string inner type")
@@ -384,6 +388,9 @@ macro_rules! impl_float {
             }
             fn pcmp(&self, o: &Self) -> Option<Ordering> {
                 self.partial_cmp(o)
+            }
+            fn to_f64_(&self) -> Option<f64> {
+                Some(*self as f64)
             }
             fn is_finite_(&self) -> bool {
                 // independent of f32::is_finite: exponent field not all ones
